@@ -113,6 +113,13 @@ class DuelingDistributionalMLP(EvolvableMLP):
             name="advantage",
         )
 
+    def get_init_dict(self) -> Dict[str, Any]:
+        """The constructor's num_outputs is the number of actions (the parent MLP
+        is built with num_atoms outputs for the value stream)."""
+        init_dict = super().get_init_dict()
+        init_dict["num_outputs"] = self.num_actions
+        return init_dict
+
     @property
     def net_config(self) -> Dict[str, Any]:
         net_config = super().net_config.copy()
